@@ -244,9 +244,14 @@ def closure_programs(rnd):
         k[0] += 1
         return k[0]
     for ctrl in ('if', 'ifelse', 'while', 'for'):
-        for via in ('direct', 'sibling', 'twohop', 'alias', 'container'):
+        for via in ('direct', 'sibling', 'twohop', 'alias', 'container', 'nested', 'nested2'):
             for read_inside in (False, True):
                 L = ['def f(a, b, c):', '    x = T(%d, a)' % key(), '    def g():', '        return T(%d, x)' % key()]
+                if via == 'nested':        # the read sits one function level further down; g itself never mentions x
+                    L = L[:2] + ['    def g():', '        def gi():', '            return T(%d, x)' % key(), '        return gi()']
+                elif via == 'nested2':
+                    L = L[:2] + ['    def g():', '        def gi():', '            def gj():', '                return T(%d, x)' % key(),
+                                 '            return gj()', '        return T(%d, gi())' % key()]
                 call = 'g()'
                 if via == 'sibling':
                     L += ['    def h():', '        return g()']
